@@ -15,6 +15,13 @@ import (
 	"github.com/btcsuite/btcwallet/wtxmgr"
 )
 
+// Announce is one "transaction confirmed in block" notification the client put
+// into its queue; the harness keeps the log across client sessions.
+type Announce struct {
+	Tx    chainhash.Hash
+	Block chainhash.Hash
+}
+
 // nodeEvent is what the node pushes to a subscribed client (bitcoind: ZMQ
 // rawblock / rawtx). The client turns them into wallet notifications when the
 // harness lets it (Deliver), so the wallet may lag the node arbitrarily.
@@ -53,6 +60,9 @@ type Client struct {
 	watchedOutPoints map[wire.OutPoint]bool
 	mempool          map[chainhash.Hash]bool
 	notifyBlocks     bool
+	// AnnounceLog, when set, receives every confirmed-transaction
+	// announcement in the order the client queued them.
+	AnnounceLog *[]Announce
 	best             waddrmgr.BlockStamp
 	birthday         time.Time
 	pending          []nodeEvent
@@ -262,7 +272,10 @@ func (c *Client) NotifyReceived(addrs []btcutil.Address) error {
 	for _, a := range addrs {
 		c.watchedAddrs[a.String()] = true
 	}
-	c.notifyBlocks = true
+	// BitcoindClient.NotifyReceived: updateWatchedFilters, then
+	// `_ = c.NotifyBlocks()` — which re-evaluates the best block when the
+	// client becomes a block-notification client here
+	c.becomeBlockClient()
 	return nil
 }
 
@@ -272,6 +285,11 @@ func (c *Client) NotifyBlocks() error {
 	if c.fail("NotifyBlocks") {
 		return ErrInjected
 	}
+	c.becomeBlockClient()
+	return nil
+}
+
+func (c *Client) becomeBlockClient() {
 	if !c.notifyBlocks {
 		// re-evaluate the best block, as BitcoindClient.NotifyBlocks does
 		t := c.node.Tip()
@@ -290,7 +308,6 @@ func (c *Client) NotifyBlocks() error {
 		c.pending = keep
 	}
 	c.notifyBlocks = true
-	return nil
 }
 
 // SendRawTransaction: the answer class is the honest node's unless the harness
@@ -539,6 +556,9 @@ func (c *Client) filterTx(tx *wire.MsgTx, block *wtxmgr.BlockMeta, notify bool) 
 		n := chain.RelevantTx{TxRecord: rec, Block: block}
 		c.out = append(c.out, n)
 		c.deliveredTx = append(c.deliveredTx, n)
+		if block != nil && c.AnnounceLog != nil {
+			*c.AnnounceLog = append(*c.AnnounceLog, Announce{Tx: id, Block: block.Hash})
+		}
 	}
 	if c.mempool[id] && notify && block != nil {
 		emit()
